@@ -1018,12 +1018,64 @@ func ruleS3f(c *Ctx) {
 		}
 		undecided = valueText(v)
 	}
+	type locAdd struct {
+		add ssa.Value
+		blk *ssa.BasicBlock
+	}
+	var adds []locAdd
 	for _, st := range storesToField(f, "internal/pass1", "Pass1", "LOC") {
-		bo, ok := st.Val.(*ssa.BinOp)
-		if !ok || bo.Op != token.ADD {
-			continue
+		if bo, ok := st.Val.(*ssa.BinOp); ok && bo.Op == token.ADD {
+			adds = append(adds, locAdd{bo.Y, st.Block()})
 		}
-		add := bo.Y
+	}
+	// LOC advanced by a helper that is given the size: the argument at each call in this function
+	if len(adds) == 0 {
+		for _, h := range unitOf(f, 2) {
+			if h == f {
+				continue
+			}
+			for _, st := range storesToField(h, "internal/pass1", "Pass1", "LOC") {
+				bo, ok := st.Val.(*ssa.BinOp)
+				if !ok || bo.Op != token.ADD {
+					continue
+				}
+				// the added value is (a join of constants and) a parameter of the helper
+				var prm *ssa.Parameter
+				var find func(v ssa.Value, d int)
+				find = func(v ssa.Value, d int) {
+					if d > 4 {
+						return
+					}
+					switch x := v.(type) {
+					case *ssa.Parameter:
+						prm = x
+					case *ssa.Phi:
+						for _, e := range x.Edges {
+							find(e, d+1)
+						}
+					}
+				}
+				find(bo.Y, 0)
+				if prm == nil {
+					continue
+				}
+				pi := -1
+				for i, pp := range h.Params {
+					if pp == prm {
+						pi = i
+					}
+				}
+				callsIn(f, func(ci ssa.CallInstruction) {
+					if ci.Common().StaticCallee() == h && pi >= 0 && pi < len(ci.Common().Args) {
+						adds = append(adds, locAdd{ci.Common().Args[pi], ci.Block()})
+					}
+				})
+			}
+		}
+	}
+	for _, la := range adds {
+		add := la.add
+		st := struct{ blk *ssa.BasicBlock }{la.blk}
 		// the value is a join of the sizes chosen in the clauses; follow the joins and keep the
 		// values that arrive from a block of the far clause
 		seenPhi := map[*ssa.Phi]bool{}
@@ -1046,7 +1098,7 @@ func ruleS3f(c *Ctx) {
 		}
 		if ph, ok := add.(*ssa.Phi); ok {
 			walkPhi(ph)
-		} else if inFar(st.Block()) {
+		} else if inFar(st.blk) {
 			collect(add, 0)
 		}
 	}
